@@ -421,8 +421,8 @@ flag or environment overrides (ingredients of the step hash) differ from the pre
 goes back to PENDING. -/
 def KState.afterRecycle (s : KState) (sk : Key) (d : StepDecl) (n : Node) : M KState :=
   if n.sstate = .failed ∨ n.shell ≠ d.shell ∨ n.overrides ≠ d.overrides then
-    (s.modify sk fun n => { n with need := d.need, shell := d.shell, holding := 0 }).markStepPending sk
-  else pure (s.modify sk fun n => { n with need := d.need, shell := d.shell, holding := 0 })
+    (s.modify sk fun n => { n with need := d.need, shell := d.shell }).markStepPending sk
+  else pure (s.modify sk fun n => { n with need := d.need, shell := d.shell })
 
 def KState.setStepExtras (s : KState) (sk : Key) (d : StepDecl) : KState :=
   s.modify sk fun n => { n with resources := d.resources, overrides := d.overrides }
